@@ -190,9 +190,13 @@ def generate(rng, seed, size):
     # property does not promise that they do, so they are marked `optional`: a tree on which only optional enums stop
     # compiling is decided by the rest of the corpus (see the driver).
     n_optional = 0 if robust else 3
-    for ei in range(target + n_shared + n_optional):
+    # and one (in every corpus size) whose literals are NOTHING BUT a placeholder (`{0}`, `{x}`, `{0}{1}`, `{0:}`): the
+    # shape on which "just forward to the field" shortcuts are taken; the caller's sign / `#` flags must not reach the field
+    n_bare = 1
+    for ei in range(target + n_shared + n_optional + n_bare):
         shared_enum = target <= ei < target + n_shared
-        optional_enum = ei >= target + n_shared
+        optional_enum = target + n_shared <= ei < target + n_shared + n_optional
+        bare_enum = ei >= target + n_shared + n_optional
         ename = "D%d" % ei
         block_start = len(out)
         out.append("// @case-begin %s%s\n" % (ename, " optional" if optional_enum else ""))
@@ -200,11 +204,11 @@ def generate(rng, seed, size):
         nvar = rng.randint(1, 7)
         if shared_enum:
             prefix, nvar = None, len(SHARED_IDENTS)
-        if optional_enum:
+        if optional_enum or bare_enum:
             prefix, nvar = None, 1
         # serialize_all: only together with identifiers whose word splitting is unambiguous (casing.py)
         style = rng.choice(casing.STYLES) if (rng.random() < 0.3 and not minimal) else None
-        if shared_enum or optional_enum:
+        if shared_enum or optional_enum or bare_enum:
             style = None
         # systematic part: the first enums cover every serialize_all style, each with a variant named by its
         # (non-ASCII) identifier alone
@@ -330,6 +334,14 @@ def generate(rng, seed, size):
                 nv["literal"] = seg0 + body + seg1
                 nv["attrs"] = ["#[strum(to_string = %s)]" % rs(nv["literal"])]
                 variants.insert(wr.randrange(0, len(variants) + 1), nv)
+        if bare_enum:
+            variants = []
+            for (kind, tys, fnames, lit) in [("tuple", ["i64"], [], "{0}"), ("tuple", ["f64"], [], "{0}"), ("tuple", ["String"], [], "{0}"),
+                                             ("named", ["i64"], ["x"], "{x}"), ("named", ["f64"], ["value"], "{value}"),
+                                             ("tuple", ["i64", "f64"], [], "{0}{1}"), ("tuple", ["u8"], [], "{0:}"),
+                                             ("named", ["i128", "char"], ["a", "b"], "{b}{a}"), ("tuple", ["f32"], [], "{0}{0}")]:
+                variants.append(dict(ident="B%d" % len(variants), kind=kind, disabled=False, attrs=["#[strum(to_string = %s)]" % rs(lit)],
+                                     fixed=None, literal=lit, tys=tys, fnames=fnames, ref=None, used=list(range(len(tys)))))
         # prefixes chosen with the variants in view: a brace in the prefix (only legal when no name is a format
         # literal), or a prefix that equals the beginning of one of the names it is prepended to
         has_interp = any(v["literal"] is not None for v in variants)
@@ -337,7 +349,7 @@ def generate(rng, seed, size):
             # systematic: enums 11..15 have fixed names only and a prefix with braces in it
             # (an unmatched closing brace, or `{x}`, in the prefix is rejected by the macro: outside the domain)
             prefix = ["{", "{{x", "x{", "{{", "é{"][ei - 11]
-        elif not robust and not shared_enum and not optional_enum:
+        elif not robust and not shared_enum and not optional_enum and not bare_enum:
             r = rng.random()
             if r < 0.08 and not has_interp:
                 prefix = rng.choice(["{", "{{x", "x{"])
@@ -352,7 +364,7 @@ def generate(rng, seed, size):
         decl = "<'a>" if uses_lt else ""
         inst = "<'static>" if uses_lt else ""
         # a type parameter (never displayed: Display is derived without bounds) in a fixed-name variant
-        if not uses_lt and not robust and not shared_enum and not optional_enum and rng.random() < 0.12:
+        if not uses_lt and not robust and not shared_enum and not optional_enum and not bare_enum and rng.random() < 0.12:
             decl, inst = "<T>", "<u8>"
             gv = dict(ident="Gen%d" % len(variants), kind=rng.choice(["tuple", "named"]), disabled=False, attrs=[], fixed=None,
                       literal=None, tys=["T"], fnames=["gen_field"], ref=None)
